@@ -89,54 +89,59 @@ func runC20(c *Ctx) {
 	}
 	// member names written: stores of constant strings to tar.Header.Name in write
 	written := map[string]bool{}
-	for _, b := range wf.Blocks {
-		for _, in := range b.Instrs {
-			st, ok := in.(*ssa.Store)
-			if !ok {
-				continue
-			}
-			fa, ok := st.Addr.(*ssa.FieldAddr)
-			if !ok || core.FieldObj(fa).Name() != "Name" {
-				continue
-			}
-			if n := core.NamedOf(fa.X.Type()); n == nil || n.Obj().Name() != "Header" {
-				continue
-			}
-			if s, ok := core.ConstString(st.Val); ok {
-				written[s] = true
+	for _, gf := range funcGroup(wf, 2) {
+		for _, b := range gf.Blocks {
+			for _, in := range b.Instrs {
+				st, ok := in.(*ssa.Store)
+				if !ok {
+					continue
+				}
+				fa, ok := st.Addr.(*ssa.FieldAddr)
+				if !ok || core.FieldObj(fa).Name() != "Name" {
+					continue
+				}
+				if n := core.NamedOf(fa.X.Type()); n == nil || n.Obj().Name() != "Header" {
+					continue
+				}
+				if s, ok := core.ConstString(st.Val); ok {
+					written[s] = true
+				}
 			}
 		}
 	}
 	// member names the reader has a case for: comparisons of Header.Name with constants
 	readCases := map[string]bool{}
 	var caseEdges []core.Edge
-	for _, b := range rf.Blocks {
-		for _, in := range b.Instrs {
-			cmp, ok := in.(*ssa.BinOp)
-			if !ok || cmp.Op != token.EQL {
-				continue
+	rgroup, wgroup := funcGroup(rf, 2), funcGroup(wf, 2)
+	for _, gf := range rgroup {
+		for _, b := range gf.Blocks {
+			for _, in := range b.Instrs {
+				cmp, ok := in.(*ssa.BinOp)
+				if !ok || cmp.Op != token.EQL {
+					continue
+				}
+				var k string
+				var other ssa.Value
+				if s, ok := core.ConstString(cmp.Y); ok {
+					k, other = s, cmp.X
+				} else if s, ok := core.ConstString(cmp.X); ok {
+					k, other = s, cmp.Y
+				} else {
+					continue
+				}
+				if core.AccessOf(other).LastField() != "Name" {
+					continue
+				}
+				readCases[k] = true
+				te, _ := core.CondEdges(cmp)
+				caseEdges = append(caseEdges, te...)
 			}
-			var k string
-			var other ssa.Value
-			if s, ok := core.ConstString(cmp.Y); ok {
-				k, other = s, cmp.X
-			} else if s, ok := core.ConstString(cmp.X); ok {
-				k, other = s, cmp.Y
-			} else {
-				continue
-			}
-			if core.AccessOf(other).LastField() != "Name" {
-				continue
-			}
-			readCases[k] = true
-			te, _ := core.CondEdges(cmp)
-			caseEdges = append(caseEdges, te...)
 		}
 	}
-	hashed := func(f *ssa.Function) (map[string]ssa.Value, []string) {
+	hashed := func(fs []*ssa.Function) (map[string]ssa.Value, []string) {
 		out := map[string]ssa.Value{}
 		var nonConst []string
-		for _, in := range callsTo(f, func(cm *ssa.CallCommon) bool {
+		for _, in := range callsToGroup(fs, func(cm *ssa.CallCommon) bool {
 			g := cm.StaticCallee()
 			return g != nil && g.Name() == "Add" && g.Signature.Recv() != nil && strings.HasSuffix(core.ShortType(g.Signature.Recv().Type()), "hashList")
 		}) {
@@ -154,8 +159,8 @@ func runC20(c *Ctx) {
 		}
 		return out, nonConst
 	}
-	hw, ncw := hashed(wf)
-	hr, ncr := hashed(rf)
+	hw, ncw := hashed(wgroup)
+	hr, ncr := hashed(rgroup)
 	for _, m := range sortedKeys(written) {
 		construct := "member:" + m
 		switch {
@@ -177,7 +182,7 @@ func runC20(c *Ctx) {
 	}
 	r.Floor("C20.1", 3)
 	// default case: with all case edges removed, the path from tar.Next must end in failure, never loop
-	for _, nx := range callsTo(rf, func(cm *ssa.CallCommon) bool { return core.MethodNameOf(cm) == "Next" }) {
+	for _, nx := range callsToGroup(rgroup, func(cm *ssa.CallCommon) bool { return core.MethodNameOf(cm) == "Next" }) {
 		cut := map[core.Edge]bool{}
 		for _, e := range caseEdges {
 			cut[e] = true
@@ -419,23 +424,21 @@ func runC20(c *Ctx) {
 			continue
 		}
 		for _, want := range []string{"read", "concludeGzipRead"} {
-			calls := callsTo(f, func(cm *ssa.CallCommon) bool {
-				g := cm.StaticCallee()
-				return g != nil && g.Name() == want && core.FuncPkgPath(g) == core.ConsulModulePrefix+"/"+snapPkg
-			})
 			construct := "snapshot." + fn + "/" + want
-			if len(calls) == 0 {
+			site, ok, rt := successNeeds(f, func(g *ssa.Function) bool {
+				return g.Name() == want && core.FuncPkgPath(g) == core.ConsulModulePrefix+"/"+snapPkg
+			}, 2)
+			switch {
+			case site == nil:
 				r.Violate("C20.4", construct, p.FuncPos(f), fn+" no longer calls "+want+": truncated or unverified archives are handed on")
-				continue
-			}
-			if ok, rt := successGuarded(f, calls[0]); ok {
-				r.Hold("C20.4", construct, p.Pos(calls[0].Pos()), "success only below a successful "+want)
-			} else {
+			case ok:
+				r.Hold("C20.4", construct, p.Pos(site.Pos()), "success only below a successful "+want)
+			default:
 				where := ""
 				if rt != nil {
 					where = " (return at " + p.Pos(rt.Pos()) + ")"
 				}
-				r.Violate("C20.4", construct, p.Pos(calls[0].Pos()), fn+" can succeed although "+want+" failed"+where)
+				r.Violate("C20.4", construct, p.Pos(site.Pos()), fn+" can succeed although "+want+" failed"+where)
 			}
 		}
 	}
@@ -513,7 +516,7 @@ func checkMetaTypeAgreement(c *Ctx) {
 	p, r := c.P, c.R
 	typeOfJSONArg := func(f *ssa.Function, method string) []string {
 		var out []string
-		for _, in := range callsTo(f, func(cm *ssa.CallCommon) bool {
+		for _, in := range callsToGroup(funcGroup(f, 2), func(cm *ssa.CallCommon) bool {
 			g := cm.StaticCallee()
 			if g == nil || g.Pkg == nil || g.Pkg.Pkg.Path() != "encoding/json" {
 				return false
